@@ -106,6 +106,16 @@ def gen_cases(rng, tier):
                 for key, order in (("kf", sum(r["sub"].values())), ("kr", sum(r["prod"].values()))):
                     r[key] = {"scalar": {"v": rng.choice([0.0, 0.125, 0.5, 1.0]), "sys": ["µm", "s", "molecule"]}}
         trajgen.tune_time_step(c)
+        # coarse leaps at low copy numbers: the drawn outflow of a cell may exceed what it holds (amounts may then go negative,
+        # totals must not move)
+        if c["engine"] == "tauleap" and rng.random() < 0.5:
+            k = 2.0 ** rng.randint(3, 6)
+            c["dt"] *= k
+            c["t_max"] = c["dt"] * rng.randint(3, 12)
+            c["interval"] = c["dt"]
+            c["t_sample"] = [0.0, c["t_max"]]
+            c["policy"] = "on_iteration"
+            c["state"] = [float(rng.choice([0, 1, 2, 3, 6, 10])) for _ in c["state"]]
         c["laws"] = usable_laws(c)
         if not c["laws"]:
             continue
